@@ -52,9 +52,11 @@ Advance(d) == /\ Step /\ time + d \in Times /\ time' = time + d /\ UNCHANGED <<s
               /\ Rec("advance", [d |-> d], None)
 Enter == /\ Step /\ Len(stack) < MaxDepth /\ stack' = Append(stack, time) /\ UNCHANGED <<time, last, saved, ptime, cnt>>
          /\ Rec("enter", <<>>, None)
-Exit(raising) == /\ stack # <<>> /\ time' = stack[Len(stack)] /\ stack' = SubSeq(stack, 1, Len(stack) - 1)
+\* how the with-block is left: normally, by an exception that propagates, or by StopIteration (which the context swallows)
+ExitKinds == {"clean", "error", "stop"}
+Exit(how) == /\ stack # <<>> /\ time' = stack[Len(stack)] /\ stack' = SubSeq(stack, 1, Len(stack) - 1)
                  /\ UNCHANGED <<last, saved, nops, ptime, cnt>>
-                 /\ Rec("exit", [raising |-> raising], None)
+                 /\ Rec("exit", [how |-> how], None)
 Produce(s) == /\ last' = [last EXCEPT ![s] = Term(s, time)] /\ ptime' = [ptime EXCEPT ![s] = time]
               /\ cnt' = [cnt EXCEPT ![s] = @ + 1] /\ UNCHANGED <<time, stack, saved>>
 Read(s) == /\ Step
@@ -93,7 +95,7 @@ Pop(s) == /\ Step /\ InstOf[s] # 0 /\ saved[s] # <<>>
 
 Next == \/ \E t \in Times : SetTime(t)
         \/ \E d \in {-1, 1, 2} : Advance(d)
-        \/ Enter \/ Exit(FALSE) \/ Exit(TRUE)
+        \/ Enter \/ \E how \in ExitKinds : Exit(how)
         \/ \E s \in Slots : Read(s) \/ Inspect(s) \/ Force(s) \/ Push(s) \/ Pop(s) \/ Reject(s) \/ RejectUpd(s) \/ ReadFail(s)
 Spec == Init /\ [][Next]_vars
 
